@@ -411,7 +411,8 @@ def afterCloseHandshake (s : S) (abort : Bool) : S × Bool :=
 /-- the state-dependent part of `onCloseFrame` -/
 def closeStateStep (s : S) : S × Bool :=
   match s.st with
-  | .closing => afterCloseHandshake { s with tCloseHs := none, wasClean := true } true
+  -- the drop is an abort only when nothing of ours is still waiting to be written (our close frame may be queued)
+  | .closing => afterCloseHandshake { s with tCloseHs := none, wasClean := true } s.sendQueue.isEmpty
   | .opened => afterCloseHandshake (replyClose { s with wasClean := true }) false
   | .closed => ({ s with wasClean := false }, false)
   | .connecting => (s.emit (.raised .exception), true)
